@@ -243,6 +243,13 @@ func runC13(c *core.Ctx) {
 		c13RoundTrip(c, x)
 	})
 	c.Exhaustive("encode/decode round trip of all 65,793 byte strings of length 0..2")
+	if c.Thorough() {
+		// length 3 (one full base64 quantum): every string as well
+		c.Job("exhaustive-len3", 1<<24, func(i int, r *core.Rand) {
+			c13RoundTripOnce(c, []byte{byte(i >> 16), byte(i >> 8), byte(i)})
+		})
+		c.Exhaustive("encode/decode round trip of all 16,777,216 byte strings of length 3")
+	}
 	c.Job("random", c.N(6000, 120000), func(i int, r *core.Rand) {
 		n := i % 64 // every length residue mod 5 and mod 3 many times
 		if i%16 == 15 {
